@@ -154,4 +154,150 @@ theorem C05_conflict_rejected_union (A B : MergeInput) (hA : Loaded A.schema) (h
   exact rejected2_of hA hB hs (mergeDef_err_union (hn ▸ hN) hka hkb hm)
     (mergeDef_err_union hN hkb hka (by rw [sameMembers_comm]; exact hm))
 
+/-! ## the order of the service list -/
+
+theorem perm_two_dir {A B : MergeInput} (hA : Loaded A.schema) (hB : Loaded B.schema)
+    (h : ∃ R, mergeSchema E [A, B] = .ok R) : ∃ R, mergeSchema E [B, A] = .ok R := by
+  rw [mergeSchema_two_ok_iff, mergeTypes_ok_iff _ _ hB.types] at h
+  rw [mergeSchema_two_ok_iff, mergeTypes_ok_iff _ _ hA.types]
+  intro va hva hb vb hl
+  obtain ⟨hvb, hvbn⟩ := lookup_some hl
+  have hl' : lookup A.schema.types vb.name = some va := hvbn ▸ lookup_of_nodup hA.types hva
+  exact mergeDef_ok_symm hvbn.symm (hA.fields va hva) (hB.fields vb hvb) (h vb hvb (hvbn ▸ hb) va hl')
+
+/-- C05, order of two services: whether two services are accepted does not depend on the order in
+    which they are listed. Full. -/
+theorem C05_perm_two (A B : MergeInput) (hA : Loaded A.schema) (hB : Loaded B.schema) :
+    (∃ R, mergeSchema facts [A, B] = .ok R) ↔ (∃ R, mergeSchema facts [B, A] = .ok R) := by
+  rw [C05_facts]
+  exact ⟨perm_two_dir hA hB, perm_two_dir hB hA⟩
+
+/-- the type an item belongs to -/
+def _root_.PebblesVerif.SchemaUnion.Item.owner : Item → String
+  | .type n _ => n
+  | .field T _ _ _ => T
+  | .arg T _ _ _ _ => T
+  | .enumValue T _ => T
+  | .member U _ => U
+  | .iface T _ => T
+
+theorem defItems_owner {d : TypeDef} {it : Item} (h : it ∈ defItems d) : it.owner = d.name := by
+  simp only [defItems, List.mem_cons, List.mem_append] at h
+  rcases h with rfl | ((((h | h) | h)) | h)
+  · rfl
+  · split at h
+    · simp only [List.mem_flatMap, List.mem_filter, fieldItems, List.mem_cons, List.mem_map] at h
+      obtain ⟨f, _, rfl | ⟨a, _, rfl⟩⟩ := h <;> rfl
+    · cases h
+  · split at h
+    · simp only [List.mem_map] at h; obtain ⟨e, _, rfl⟩ := h; rfl
+    · cases h
+  · split at h
+    · simp only [List.mem_map] at h; obtain ⟨e, _, rfl⟩ := h; rfl
+    · cases h
+  · split at h
+    · simp only [List.mem_map] at h; obtain ⟨e, _, rfl⟩ := h; rfl
+    · cases h
+
+/-- an item of a definition whose name is not `__…` -/
+def Visible (ts : List TypeDef) (it : Item) : Prop := ∃ r ∈ ts, isBuiltinName r.name = false ∧ it ∈ defItems r
+
+/-- after a successful merge the visible items of the result (union members aside: a refilled
+    "broken" union takes them from `PossibleTypes`) are exactly the visible items of the inputs -/
+theorem visible_iff {l : List MergeInput} {R : Schema} (h : mergeSchema facts l = .ok R)
+    (hroot : ∀ i ∈ l, RootsAreObjects i.schema) (hnode : NodeAgree l) (hdir : DirectivesAgree (l.map (·.schema)))
+    (it : Item) (hm : ∀ U m, it ≠ .member U m) :
+    Visible R.types it ↔ ∃ i ∈ l, Visible i.schema.types it := by
+  have hsup := C03_superset_partial l R h hroot hnode hdir
+  have hni := C03_no_invention l R h hroot
+  constructor
+  · rintro ⟨r, hr, hb, hit⟩
+    have : it ∈ typesItems R.types := by simp only [typesItems, List.mem_flatMap]; exact ⟨r, hr, hit⟩
+    rcases hni.1 it this with ⟨S, hS, hSi⟩ | ⟨U, m, he, _⟩
+    · obtain ⟨i, hi, rfl⟩ := List.mem_map.mp hS
+      simp only [typesItems, List.mem_flatMap] at hSi
+      obtain ⟨d, hd, hdi⟩ := hSi
+      refine ⟨i, hi, d, hd, ?_, hdi⟩
+      rw [← defItems_owner hdi, defItems_owner hit]; exact hb
+    · exact absurd he (hm U m)
+  · rintro ⟨i, hi, d, hd, hb, hdi⟩
+    have := hsup.1 i.schema (List.mem_map_of_mem hi) d hd hb it hdi
+    simp only [typesItems, List.mem_flatMap] at this
+    obtain ⟨r, hr, hri⟩ := this
+    refine ⟨r, hr, ?_, hri⟩
+    rw [← defItems_owner hri, defItems_owner hdi]; exact hb
+
+/-
+FULL STATEMENT (false of the code: `C05_perm_false`, `C05_perm_false_node`):
+  theorem C05_perm (hp : l.Perm l') : ((∃ R, mergeSchema facts l = .ok R) ↔ ∃ R', mergeSchema facts l' = .ok R') ∧
+      ∀ R R', mergeSchema facts l = .ok R → mergeSchema facts l' = .ok R' → ∀ it, Visible R.types it ↔ Visible R'.types it
+-/
+
+/-- C05, order of n services, the RESULT: when a list of services and a permutation of it are both
+    accepted, the two merged schemas have the same types, fields, arguments, enum values and
+    implemented interfaces (visible items, members of unions aside) — provided the services agree
+    on `Node` itself and on same-named directives (open findings). Any number of services. -/
+theorem C05_perm_result_partial (l l' : List MergeInput) (hp : l.Perm l') (R R' : Schema)
+    (h : mergeSchema facts l = .ok R) (h' : mergeSchema facts l' = .ok R')
+    (hroot : ∀ i ∈ l, RootsAreObjects i.schema) (hnode : NodeAgree l) (hdir : DirectivesAgree (l.map (·.schema)))
+    (it : Item) (hm : ∀ U m, it ≠ .member U m) : Visible R.types it ↔ Visible R'.types it := by
+  have hroot' : ∀ i ∈ l', RootsAreObjects i.schema := fun i hi => hroot i (hp.mem_iff.mpr hi)
+  have hnode' : NodeAgree l' := fun i hi j hj => hnode i (hp.mem_iff.mpr hi) j (hp.mem_iff.mpr hj)
+  have hdir' : DirectivesAgree (l'.map (·.schema)) := by
+    intro S hS S' hS'
+    exact hdir S ((hp.map _).mem_iff.mpr hS) S' ((hp.map _).mem_iff.mpr hS')
+  rw [visible_iff h hroot hnode hdir it hm, visible_iff h' hroot' hnode' hdir' it hm]
+  constructor
+  · rintro ⟨i, hi, hv⟩; exact ⟨i, hp.mem_iff.mp hi, hv⟩
+  · rintro ⟨i, hi, hv⟩; exact ⟨i, hp.mem_iff.mpr hi, hv⟩
+
+/-! ## … and what is false -/
+
+def Accepted (F : Facts) (l : List MergeInput) : Prop := ∃ R, mergeSchema F l = .ok R
+instance (F : Facts) (l : List MergeInput) : Decidable (Accepted F l) :=
+  match h : mergeSchema F l with
+  | .ok R => isTrue ⟨R, h⟩
+  | .error _ => isFalse (fun ⟨R, hR⟩ => by rw [h] at hR; cases hR)
+
+instance (S : Schema) : Decidable (FieldsNodup S) := by unfold FieldsNodup; infer_instance
+
+/-- NEGATION of order independence for three services (repaired tree; open finding
+    C05-order-nway): `T{x,y}`, `T{x,y}`, `T{z}` is accepted, `T{x,y}`, `T{z}`, `T{x,y}` is rejected.
+    Every pair of the three is accepted in both orders (`C05_perm_two`): the defect is in the
+    accumulation. -/
+theorem C05_perm_false : W.order3.Perm W.order3' ∧ Accepted expected W.order3 ∧ ¬ Accepted expected W.order3' ∧
+    (∀ i ∈ W.order3, TypesNodup i.schema ∧ FieldsNodup i.schema ∧ RootsAreObjects i.schema) := by
+  refine ⟨?_, by decide, by decide, by decide⟩
+  unfold W.order3 W.order3'
+  exact List.Perm.cons _ (List.Perm.swap _ _ _)
+
+/-- NEGATION of result independence (repaired tree; open finding C05-node-def-differs): two
+    services with different `Node` interfaces, the first one's `Node` wins -/
+theorem C05_perm_false_node :
+    (∃ R, mergeSchema expected W.nodeDefs = .ok R ∧ ¬ Visible R.types (.field "Node" "rev" W.tInt none)) ∧
+    (∃ R, mergeSchema expected W.nodeDefs.reverse = .ok R ∧ Visible R.types (.field "Node" "rev" W.tInt none)) := by
+  constructor
+  · refine ⟨_, rfl, ?_⟩
+    unfold Visible; decide
+  · refine ⟨_, rfl, ?_⟩
+    unfold Visible; decide
+
+/-- the tree as first read: the same field with two types is accepted silently and the result
+    depends on the order (repaired by 0001-field-signature.patch: rejected in both orders) -/
+theorem C05_perm_false_original :
+    (∃ R, mergeSchema original W.diffType = .ok R ∧ Visible R.types (.field "T" "x" W.tStr none)) ∧
+    (∃ R, mergeSchema original W.diffType' = .ok R ∧ ¬ Visible R.types (.field "T" "x" W.tStr none)) ∧
+    ¬ Accepted expected W.diffType ∧ ¬ Accepted expected W.diffType' := by
+  refine ⟨⟨_, rfl, ?_⟩, ⟨_, rfl, ?_⟩, by decide, by decide⟩
+  · unfold Visible; decide
+  · unfold Visible; decide
+
+/-- non-vacuity: the conflict predicates are inhabited by the witnesses, the hypotheses of the
+    order theorems by a mergeable pair -/
+example : FieldSignatureDiffers (W.diffType[0]!).schema (W.diffType[1]!).schema :=
+  ⟨W.obj "T" [W.fld "x" W.tInt], W.obj "T" [W.fld "x" W.tStr], by unfold Shared; decide, rfl, rfl, by decide,
+    W.fld "x" W.tInt, by decide, W.fld "x" W.tStr, by decide, rfl, by decide, by decide⟩
+example : Accepted expected W.plain ∧ Accepted expected W.plain.reverse ∧
+    (∀ i ∈ W.plain, TypesNodup i.schema ∧ FieldsNodup i.schema ∧ RootsAreObjects i.schema) := by decide
+
 end PebblesVerif.Merge
